@@ -53,8 +53,18 @@ def random_case(rnd, idx, sync_ratio):
         progs.append(" ; ".join(ops) if ops else "drop")
     nd = rnd.randrange(1, 5)
     total = sum(4 * len(p.split(";")) for p in progs) + 6 * nd + 6
-    sched = [rnd.randrange(0, n + 1) for _ in range(rnd.randrange(total // 2, total + 8))]
-    return case_text("r%d" % idx, cap, progs, nd, sched)
+    length = rnd.randrange(total // 2, total + 8)
+    if rnd.random() < 0.5:
+        sched = [rnd.randrange(0, n + 1) for _ in range(length)]
+    else:
+        # bursts: one thread runs several steps in a row (coarser interleavings reach "whole drain between two
+        # steps of a sender")
+        sched = []
+        while len(sched) < length:
+            sched += [rnd.randrange(0, n + 1)] * rnd.choice([1, 2, 3, 4, 5, 6])
+    # the loop always gets a quiet tail: enough steps for two complete dispatches after everyone else is done
+    sched += list(range(1, n + 1)) * 6 + [0] * 12
+    return case_text("r%d" % idx, cap, progs, nd + 2, sched)
 
 
 WITNESSES = [
@@ -62,6 +72,10 @@ WITNESSES = [
     case_text("f9_rendezvous_lost_wake", 0, ["send 7"], 4, [1, 1, 1, 1, 0, 0, 0, 0, 0, 1, 0, 0, 0, 0, 0, 0, 1, 0, 0, 0, 1]),
     # Closed after the last sender drops, with a message still queued
     case_text("closed_after_queue", None, ["send 1 ; drop", "drop"], 3, [2, 2, 2, 1, 1, 1, 1, 1, 1, 1, 0, 0, 0, 0, 0, 0, 0, 0, 0, 0, 0, 0]),
+    # a whole dispatch between a sender's wake write and its last step (the message must already be queued)
+    case_text("drain_between_wake_and_return", None, ["send 5"], 4, [1, 1, 1, 0, 0, 0, 0, 0, 0, 1, 1, 0, 0, 0, 0, 0, 0, 0, 0]),
+    # the same around a sender drop (the queue handle must already be gone when the drop pings)
+    case_text("drain_between_drop_ping_and_return", None, ["drop"], 4, [1, 1, 0, 0, 0, 0, 0, 0, 1, 1, 0, 0, 0, 0, 0, 0, 0, 0]),
     # bounded channel: blocking send completes once the loop drained
     case_text("sync1_blocking_send", 1, ["trysend 1 ; send 2"], 3, [1, 1, 1, 1, 1, 1, 1, 1, 1, 0, 0, 0, 0, 0, 1, 1, 1, 0, 0, 0, 0, 0, 0, 0, 0]),
 ]
@@ -108,6 +122,26 @@ def spec_c04(case, trace):
         if w[0] == "prog":
             prog_vals[int(w[1].rstrip(":"))] = [int(x.split()[1]) for x in l.split(":", 1)[1].split(";") if x.split() and x.split()[0] in ("send", "trysend")]
     last, blocked_since, loop_idle_polls = None, {}, 0
+    sent_ok = set()
+    for l in trace:
+        if l.startswith("final results=["):
+            for r in l[len("final results=["):-1].split(";"):
+                f = r.split()
+                if len(f) == 4 and f[3] == "ok":
+                    sent_ok.add(int(f[2]))
+    done = set()
+    nthreads = len(prog_vals)
+    handles_left = 0
+    for l in case:
+        if l.startswith("prog "):
+            ops = [x.split()[0] for x in l.split(":", 1)[1].split(";") if x.split()]
+            h = 1
+            for o in ops:
+                if o == "clone" and h > 0:
+                    h += 1
+                elif o == "drop" and h > 0:
+                    h -= 1
+            handles_left += h
     for l in trace:
         w = l.split()
         if w[0] != "step":
@@ -129,10 +163,25 @@ def spec_c04(case, trace):
         if last is not None and msgs[:len(last)] != last:
             return "the delivered sequence changed retroactively"
         last = msgs
+        if label == "done" and t != 0:
+            done.add(t)
+        # every sender has finished, the eventfd is not readable and the loop finds nothing: whatever was
+        # sent successfully must have been delivered by now
+        if t == 0 and label == "loop.polled" and w[3] == "counter=0" and len(done) == nthreads:
+            left = [m for m in sent_ok if m not in msgs]
+            if left:
+                return "message %s was sent successfully but is left queued with no wake-up pending (every sender done, eventfd counter 0, loop idle)" % left
+            if handles_left == 0 and "closed" not in items:
+                return "every sender handle is gone and the loop idles with the eventfd counter at 0, but Closed was never delivered"
+
         if label == "blocked":
-            blocked_since.setdefault(t, 0)
+            blocked_since.setdefault(t, set(prog_vals.get(t, [])) - set(msgs))
         elif t in blocked_since and label != "skip":
             del blocked_since[t]
+        # a blocked sender whose message has been delivered has been released (it runs on by itself)
+        for u in list(blocked_since):
+            if blocked_since[u] & set(msgs):
+                del blocked_since[u]
         # a sender blocked in send while the loop completes whole dispatches that find nothing: no progress possible
         if t == 0 and label == "loop.polled" and blocked_since and w[3] == "counter=0":
             loop_idle_polls += 1
